@@ -21,9 +21,17 @@
 #ifndef STROBJ
 #define STROBJ 264
 #endif
+/* -DALLOC_MAY_FAIL: every string allocation may fail (returns NULL), as malloc/strdup may */
+#ifdef ALLOC_MAY_FAIL
+SEQ_DECL(u8, allocfail);
+#endif
+static unsigned alloc_failed;
 static void *verif_malloc(size_t n)
 {
 	void *p;
+#ifdef ALLOC_MAY_FAIL
+	if (SEQ_NEXT(u8, allocfail) & 1) { ++alloc_failed; return NULL; }
+#endif
 	CHECK(n <= STROBJ, "string allocation fits the modelled object size");
 	p = malloc(STROBJ);
 	ASSUME(p != NULL);
@@ -33,6 +41,7 @@ static char *verif_strdup(const char *s)
 {
 	size_t n = strlen(s), i;
 	char *r = verif_malloc(n + 1);
+	if (r == NULL) return NULL;
 	for (i = 0; i <= n; ++i) r[i] = s[i];
 	return r;
 }
